@@ -139,7 +139,7 @@ def run(ctx):
     rng = gen.rng_for(ctx.seed, 'c11')
     MODEL['m'] = core.Model()
     try:
-        for k in range(48 if ctx.quick else 900):
+        for k in range(ctx.n(48, 900)):
             one(ctx, rng, k)
     finally:
         MODEL.pop('m').close()
